@@ -1029,6 +1029,14 @@ func (ex *Exec) valueEq(x, y Value) *Term {
 }
 
 func (ex *Exec) binop(op token.Token, x, y Value, t types.Type) Value {
+	if op == token.EQL || op == token.NEQ {
+		_, xf := x.(FVal)
+		_, yf := y.(FVal)
+		if xf || yf {
+			ex.stubsUsed["float:comparison free"]++
+			return ex.nondet(BoolSort)
+		}
+	}
 	switch op {
 	case token.EQL:
 		return ex.valueEq(x, y)
@@ -1041,13 +1049,15 @@ func (ex *Exec) binop(op token.Token, x, y Value, t types.Type) Value {
 	if _, ok := y.(Rope); ok && op == token.ADD {
 		return ex.ropeCat(ex.toRope(x), ex.toRope(y))
 	}
-	if fx, ok := x.(FVal); ok {
+	_, xf := x.(FVal)
+	_, yf := y.(FVal)
+	if xf || yf {
 		switch op {
 		case token.LSS, token.GTR, token.LEQ, token.GEQ:
 			ex.stubsUsed["float:comparison free"]++
 			return ex.nondet(BoolSort)
 		}
-		return FVal{op.String(), []Value{fx, y}}
+		return FVal{op.String(), []Value{x, y}}
 	}
 	if sx, ok := x.(Str); ok {
 		sy := y.(Str)
